@@ -6,35 +6,30 @@
     theorem says the model of the implementation (two-phase parser + fuel-driven evaluator,
     lazy operators handing rule text back to the parser) computes exactly what it computes.
 
-    The two hypotheses are the scanner lemmas of Proofs/Scan.v (the hand-written scanners of
-    js_op.rs recognise the ECMAScript StringNumericLiteral / StrDecimalLiteral grammars); the
-    theorems are named _partial while they are carried as hypotheses. *)
+    Both scanner lemmas it rests on are proved for every string: Proofs/Scan.v
+    (str_to_number_spec: the Number()-style scanner is the StringNumericLiteral grammar) and
+    Proofs/Scan2.v (parse_float_string_spec: the parseFloat scanner returns the value of the
+    LONGEST prefix that is a StrDecimalLiteral), so the theorems carry no hypothesis. *)
 From Coq Require Import List.
 From JL Require Import Base.Json Base.Dec2Flt Base.Monad Model.Eval Spec.Specs Spec.RefEval.
-From JL Require Import Proofs.MonadLaws Proofs.OpsCorrect Proofs.Totality Proofs.Scan.
+From JL Require Import Proofs.MonadLaws Proofs.OpsCorrect Proofs.Totality Proofs.Scan Proofs.Scan2.
 From Coq Require Import String NArith ZArith.
 Local Open Scope string_scope.
 Import ListNotations.
 
-(** the one lemma still carried as a hypothesis: the parseFloat scanner returns the value of the
-    LONGEST prefix that is a StrDecimalLiteral (the Number()-style scanner lemma is proved:
-    Proofs/Scan.v str_to_number_spec) *)
-Definition scanner_lemmas : Prop :=
-  forall s, parse_float_string s = es_parse_float_str s.
-
-Theorem C04_single_pass_partial :
-  scanner_lemmas ->
+Theorem C04_single_pass :
   forall n r d, vdepth r < n -> meq (apply_fuel n r d) (ref_eval r d).
-Proof. intros H2. exact (model_refines_reference str_to_number_spec H2). Qed.
-Print Assumptions C04_single_pass_partial.
+Proof. exact (model_refines_reference str_to_number_spec parse_float_string_spec). Qed.
+Print Assumptions C04_single_pass.
 
 (** in particular for the budget [apply] uses *)
-Theorem C04_apply_is_reference_partial :
-  scanner_lemmas -> forall r d, meq (apply r d) (ref_eval r d).
+Theorem C04_apply_is_reference :
+  forall r d, meq (apply r d) (ref_eval r d).
 Proof.
-  intros H2 r d. unfold apply. apply (model_refines_reference str_to_number_spec H2). unfold default_fuel. auto with arith.
+  intros r d. unfold apply. apply (model_refines_reference str_to_number_spec parse_float_string_spec).
+  unfold default_fuel. auto with arith.
 Qed.
-Print Assumptions C04_apply_is_reference_partial.
+Print Assumptions C04_apply_is_reference.
 
 (** data is inert even when it looks like an operation: the witnesses of the repaired defects *)
 Example C04_data_is_inert :
